@@ -298,7 +298,6 @@ def _host(draw, backend, sch, kind, attempt):
             main = {"atlas": ("Jets", "AntiKt4"), "cms_aod": ("Muons", "muons"), "cms_miniaod": ("Muons", "slimmedMuons")}[backend]
             g.uses.append(main)
             os_ = (f"e.{main[0]}({main[1]!r})", sch.coll(main[0]).element)
-        g.f.seq2d = False
         body, cols = g.row([("j", TObj(os_[1]))], fuel, ncols, form)
         text = f"Select(SelectMany({src}, lambda e: {os_[0]}), lambda j: {body})"
     else:
